@@ -497,7 +497,7 @@ REGISTRY = {
     "C07": Spec("FFSM2.Props.C07", ["ids"], machine_run("C07")),
     "C08": Spec("FFSM2.Props.C08", ["ids", "config"], machine_run("C08", ("random", "planveto"))),
     "C09": Spec("FFSM2.Props.C09", ["ids", "config"], machine_run("C09", ("random", "planveto", "reactivate")), extra=("FFSM2.Props.History",)),
-    "C11": Spec("FFSM2.Props.C11", ["ids"], machine_run("C11", ("random", "replica"))),
+    "C11": Spec("FFSM2.Props.C11", ["ids"], machine_run("C11", ("random", "replica")), extra=("FFSM2.Props.History",)),
     "C12": Spec("FFSM2.Props.C12", ["ids", "serial", "bitwidth", "contain", "typebits", "buffers"], c12_run, extra=("FFSM2.Props.History",)),
     "C16": Spec("FFSM2.Props.C16", ["ids"], machine_run("C16"), extra=("FFSM2.Props.History",)),
     "C17": Spec("FFSM2.Props.C17", ["ids"], machine_run("C17", ("random", "reactivate")), extra=("FFSM2.Props.History",)),
